@@ -236,7 +236,12 @@ func genC08(t *rapid.T) c08Case {
 		toks = append(toks, mt[i]...)
 	}
 	c := c08Case{Kind: "valid", Flip: rapid.Bool().Draw(t, "flip")}
-	switch rapid.IntRange(0, 6).Draw(t, "variant") {
+	switch rapid.IntRange(0, 7).Draw(t, "variant") {
+	case 7: // the same unwanted token twice in a row: two diagnostics with one and the same text
+		i := rapid.IntRange(0, len(toks)).Draw(t, "at")
+		f := singleTokenFragments[rapid.IntRange(0, len(singleTokenFragments)-1).Draw(t, "frag")]
+		toks = append(append(append([]model.Tok(nil), toks[:i]...), f, f), toks[i:]...)
+		c.Kind = "token-inserted-twice"
 	case 6: // one variable takes the name of another one (anywhere in the text, in an item of any type)
 		var at []int
 		for i, tk := range toks {
